@@ -71,6 +71,24 @@ SCOPE_CLASSES = (
 )
 
 
+def _first_line(scope: ast.AST) -> int:
+    """Get the first line of the code object that is compiled from a scope.
+
+    The code object of a decorated definition starts at its first decorator, not at
+    the line of the ``def`` or ``class`` keyword.
+
+    Args:
+        scope: The AST node of the scope.
+
+    Returns:
+        The first line number of the code object of the scope.
+    """
+    decorators = getattr(scope, "decorator_list", None)
+    if decorators:
+        return min(decorator.lineno for decorator in decorators)
+    return scope_line_range(scope)[0]
+
+
 def _is_main(node: ast.If) -> bool:
     """Check for 'if __name__ == "__main__":' block."""
     return (
@@ -122,7 +140,7 @@ class ModuleAstInfo:
         """Get the AST info of the scope.
 
         Args:
-            lineno: The line number of the scope.
+            lineno: The first line number of the code object of the scope.
 
         Returns:
             The AST info of the scope, or None if there are no scope at lineno
@@ -131,7 +149,7 @@ class ModuleAstInfo:
             iter(
                 scope
                 for scope in nodes_of_class(self.module_ast, SCOPE_CLASSES)
-                if scope_line_range(scope)[0] == lineno
+                if _first_line(scope) == lineno
             ),
             None,
         )
